@@ -262,7 +262,7 @@ PROPS["C12"] = {
     "rule": ("rapid draws target, seed file, mutation kind and positions/values; non-trivial = mutated input that passes the first validation stage of its parser (reported per target as deep:<target>); distinct by input hash"),
     "assumptions": ["valid seeds come from one generated epoch built at process start"],
     "units": [
-        {"name": "mutation", "pkg": ".", "run": "TestVfC12", "checks": T(24000, 1200000), "shards": T(8, 16), "timeout": T(900, 3000), "transforms": GSFA_FASTPOLL, "env": {"GOGC": "100"}, "shrinktime": "15s"},
+        {"name": "mutation", "pkg": ".", "run": "TestVfC12", "checks": T(64000, 1200000), "shards": T(8, 16), "timeout": T(900, 3000), "transforms": GSFA_FASTPOLL, "env": {"GOGC": "100"}, "shrinktime": "15s"},
         {"name": "fuzz", "pkg": ".", "run": "FuzzVfC12", "kind": "fuzz", "tiers": ("thorough",), "fuzztime": T("30s", "300s"), "workers": 16, "shards": 1, "checks": 0, "timeout": T(600, 1800), "transforms": GSFA_FASTPOLL, "env": {"GOGC": "100"}},
     ],
 }
